@@ -160,6 +160,14 @@ def transcode(units16, enc):
     return list(s.encode('utf-8'))
 
 
+def spacepad(tag):
+    if tag == 0: return 0x20202020
+    if tag & 0x00FFFFFF == 0: return tag | 0x00202020
+    if tag & 0x0000FFFF == 0: return tag | 0x00002020
+    if tag & 0x000000FF == 0: return tag | 0x00000020
+    return tag
+
+
 def build_ops(case, model):
     """-> (payload bytes, list of expectations aligned with the observations the driver emits)"""
     ops = b''
@@ -171,6 +179,13 @@ def build_ops(case, model):
     last_set = None
     for op in case['ops']:
         k = op[0]
+        if k == 'langsel':
+            # a language of this very font (zero- or space-padded), so that its Sill overrides are actually read back
+            cands = [0x12345678]
+            for t in model.langs:
+                cands += [t, spacepad(t)]
+            op = ['lang', cands[op[1] % len(cands)]]
+            k = 'lang'
         if k == 'lang':
             ops += bytes([5]) + struct.pack('<I', op[1]); objs.append(model.for_lang(op[1])); n += 1
         elif k == 'null':
@@ -318,6 +333,8 @@ def ops_strategy():
     vals = st.one_of(st.sampled_from([0, 1, 2, 3, 7, 8, 15, 16, 255, 256, 1023, 1024, 0x7FFF, 0x8000, 0xFFFF]), st.integers(0, 0xFFFF))
     op = st.one_of(
         st.tuples(st.just('lang'), tags).map(list),
+        st.tuples(st.just('langsel'), st.integers(0, 40)).map(list),
+        st.tuples(st.just('langsel'), st.integers(0, 40)).map(list),
         st.tuples(st.just('clone'), st.integers(0, 5)).map(list),
         st.just(['null']),
         st.tuples(st.just('set'), st.integers(0, 5), st.integers(0, 255), vals).map(list),
